@@ -19,6 +19,17 @@ type chanState struct {
 	waiting   int // receivers parked on this channel
 	handoff   []any
 	handoffVC [][MaxThreads]uint32
+	// a sender parked on an unbuffered channel also leaves an offer that a select statement with a receive
+	// clause on this channel may take (the select does not count as a parked receiver: it may go another way)
+	offers     []*chanOffer
+	selRecvers int // select statements currently parked with a receive clause on this channel
+}
+
+type chanOffer struct {
+	v     any
+	vc    [MaxThreads]uint32 // the sender's clock when it offered
+	rvc   [MaxThreads]uint32 // the taker's clock when it took the value
+	taken bool
 }
 
 func chanKey[T any](ch chan T) uintptr {
@@ -51,10 +62,24 @@ func Send[T any](ch chan T, v T, site string) {
 	t := s.cur
 	st := stateOf(s, ch)
 	if st.key != 0 && st.capacity == 0 {
-		t.pend = pending{kind: opSend, obj: st, site: site, enabled: func() bool { return st.closed || st.waiting > len(st.handoff) }}
+		off := &chanOffer{v: v, vc: t.vc}
+		st.offers = append(st.offers, off)
+		t.pend = pending{kind: opSend, obj: st, site: site, enabled: func() bool { return st.closed || off.taken || st.waiting > len(st.handoff) }}
 		s.point(t)
 		s.trace("send (rendezvous) %s", site)
 		raceSend(st, site)
+		for i, o := range st.offers {
+			if o == off {
+				st.offers = append(st.offers[:i:i], st.offers[i+1:]...)
+				break
+			}
+		}
+		if off.taken {
+			// a select statement received the value
+			joinVC(&t.vc, &off.rvc)
+			t.vc[t.id]++
+			return
+		}
 		if st.closed {
 			panic(plainRuntimeError("send on closed channel"))
 		}
